@@ -59,7 +59,7 @@ KindTab == [
   AsyncFor         |-> K("S", "LOOP", {}, <<"iter", "body">>, "afunc"),
   Try              |-> K("S", "EXCEPTION", {}, <<"body", "handler", "orelse", "final", "exctype">>, "any"),
   TryStar          |-> K("S", "EXCEPTION", {}, <<"body", "handler">>, "any"),
-  Raise            |-> K("S", "EXCEPTION", {}, <<"exc">>, "any"),
+  Raise            |-> K("S", "EXCEPTION", {}, <<"exc", "cause">>, "any"),        \* raise X [from Y]
   Assert           |-> K("S", "EXCEPTION", {}, <<"test", "msg">>, "any"),
   ClassDef         |-> K("S", "CLASS_DEFINITION", {}, <<"body", "deco", "base", "keyword">>, "any"),
   FunctionDef      |-> K("S", "FUNCTION_DEFINITION", {}, <<"body", "deco", "default", "kwdefault", "returns", "argannotation">>, "any"),
@@ -160,6 +160,53 @@ EachFlagMatters == \A f \in Flags : \E k \in Kinds : KindTab[k].must = f
 DeepContainment(d) ==        \* a forbidden kind is refused in every position of every other kind
   \A c \in AllChains(d) : \A k \in NodesOf(c) :
      KindTab[k].must # "none" => Verdict(c, ALLP \ {KindTab[k].must}) = {"REJECT"}
+
+-----------------------------------------------------------------------------
+(* Programs whose point is HOW the error they raise is reported: the kinds *)
+(* they are made of (for the verdict) - the text is in pgverif/perm.py.    *)
+(* Whatever the chaining, the CodeError must carry the exception that      *)
+(* plain execution of the same text raises.                                *)
+ErrProgs == [
+  raise_from          |-> {"Try", "Raise"},          \* except E as e: raise X from e
+  raise_from_fresh    |-> {"Raise"},                 \* raise X from Y
+  raise_from_none     |-> {"Try", "Raise"},          \* except E: raise X from None
+  implicit_chain      |-> {"Try", "Raise"},          \* except E: raise X
+  reraise             |-> {"Try", "Raise"},          \* except E: raise
+  nested_reraise      |-> {"Try", "Raise"},          \* try: (try: raise E except E: raise X from ...) except X: raise
+  raise_in_finally    |-> {"Try", "Raise"},          \* finally: raise X   (while E propagates)
+  raise_from_in_func  |-> {"FunctionDef", "Try", "Raise", "Call", "Return"},
+  assert_message      |-> {"Assert"} ]
+MustK(ks) == {KindTab[k].must : k \in ks} \ {"none"}
+AmbK(ks)  == UNION {KindTab[k].amb : k \in ks}
+
+-----------------------------------------------------------------------------
+(* Histories of permission scopes: enter P / enter ALL / enter NOTHING /   *)
+(* exit, well nested to depth <= 3, after which a program is evaluated.    *)
+(* P is the permission set under test.  What counts at the end is the      *)
+(* OUTERMOST scope still open - in particular after inner scopes have been *)
+(* entered AND LEFT again (Restores of C17 with evaluation as the probe).  *)
+\* op codes: 0 exit, 1 enter P, 2 enter ALL, 3 enter NOTHING
+RECURSIVE OpenAfter(_)
+OpenAfter(h) ==          \* the stack of open scopes after history h, or <<-1>> if h is not well nested
+  IF h = <<>> THEN <<>>
+  ELSE LET st == OpenAfter(SubSeq(h, 1, Len(h) - 1))
+           op == h[Len(h)] IN
+       IF st = <<-1>> THEN <<-1>>
+       ELSE IF op = 0 THEN (IF st = <<>> THEN <<-1>> ELSE SubSeq(st, 1, Len(st) - 1))
+       ELSE IF Len(st) >= 3 THEN <<-1>> ELSE Append(st, op)
+Histories(L) == {h \in UNION {[1..n -> 0..3] : n \in 1..L} : OpenAfter(h) # <<-1>>}
+\* effective scope after h, declaratively: the outermost open one (0 = no scope at all)
+EffAfter(h) == LET st == OpenAfter(h) IN IF st = <<>> THEN 0 ELSE st[1]
+\* ... and by the mechanism as coded (thread-local slot; the outer value replaces the requested one;
+\* only the outermost scope deletes the slot): <<slot, saved outer values>>
+RECURSIVE MechAfter(_)
+MechAfter(h) ==
+  IF h = <<>> THEN <<0, <<>>>>
+  ELSE LET m == MechAfter(SubSeq(h, 1, Len(h) - 1))
+           op == h[Len(h)] IN
+       IF op = 0 THEN <<IF m[2][Len(m[2])] = 0 THEN 0 ELSE m[1], SubSeq(m[2], 1, Len(m[2]) - 1)>>
+       ELSE <<IF m[1] # 0 THEN m[1] ELSE op, Append(m[2], m[1])>>
+MechanismRestores(L) == \A h \in Histories(L) : MechAfter(h)[1] = EffAfter(h)
 
 -----------------------------------------------------------------------------
 (* The mechanism: nested permission scopes, then evaluate = parse,         *)
